@@ -504,6 +504,95 @@ def b_ragged_fancy_write(a):
     return f, ins
 
 
+def _sym_mi(a):
+    X, _ = feats(a)
+    jc = mutual_info.joint_counts(X, n_x=a["nx"])
+    return mutual_info.mutual_information(jc)
+
+
+def b_nmi(a):
+    mi = _sym_mi(a)
+    return (lambda: mutual_info.mi_to_nmi(mi)), [mi]
+
+
+def b_nmi_apc_full(a):
+    mi = _sym_mi(a)
+    return (lambda: mutual_info.mi_to_nmi_apc(mi)), [mi]
+
+
+def b_deconv(a):
+    r = rs(a["seed"])
+    G = r.rand(a["fx"] + 1, a["fx"] + 1) * 0.2
+    G = (G + G.T) / 2
+    return (lambda: mutual_info.deconvolute_network(G)), [G]
+
+
+def b_rel_entropy(a):
+    C1 = count_matrix(a).astype(float) + 0.5
+    b = dict(a)
+    b["seed"] = a["seed"] + 17
+    C2 = count_matrix(b).astype(float) + 0.5
+    P = C1 / C1.sum(axis=1, keepdims=True)
+    Q = C2 / C2.sum(axis=1, keepdims=True)
+    pops = C1.sum(axis=1) / C1.sum()
+    if a["eq"]:
+        return (lambda: entropy.relative_entropy_msm(P, Q, populations=pops, base=2.0)), [P, Q, pops]
+    return (lambda: entropy.relative_entropy_per_state(P, Q, weights=pops)), [P, Q, pops]
+
+
+def b_q_from_assigns(a):
+    r = rs(a["seed"])
+    A = np.vstack([r.randint(0, a["n_states"], size=max(a["lens"])) for _ in a["lens"]])
+    return (lambda: entropy.Q_from_assignments(A, n_states=a["n_states"], lag_time=a["lag"])), [A]
+
+
+def b_energy(a):
+    u = rs(a["seed"]).normal(size=a["n"]) * 3
+    return (lambda: entropy.energy_to_probability(u)), [u]
+
+
+def b_msm_fit(a):
+    from enspara.msm import MSM
+    r = rs(a["seed"])
+    L = max(max(a["lens"]), 3 * a["lag"] + 2)
+    A = np.vstack([np.concatenate([np.arange(a["n_states"]), r.randint(0, a["n_states"], size=L)]) for _ in a["lens"]])
+
+    def f():
+        m = MSM(lag_time=a["lag"], method=builders.normalize, trim=True, sliding_window=a["sliding"])
+        m.fit(A)
+        return (m.tcounts_, m.tprobs_, m.eq_probs_, sorted(m.mapping_.to_original.items()))
+    return f, [A]
+
+
+def b_imp_times(a):
+    from enspara.msm import implied_timescales
+    r = rs(a["seed"])
+    L = max(max(a["lens"]), 12)
+    A = np.vstack([np.concatenate([np.arange(a["n_states"]), r.randint(0, a["n_states"], size=L)]) for _ in a["lens"]])
+    return (lambda: implied_timescales(A, [1, 2], builders.normalize, n_times=2, trim=True)), [A]
+
+
+def b_partition(a):
+    r = rs(a["seed"])
+    n = a["n"]
+    lab = r.randint(0, a["k"], size=n)
+    dist = np.abs(r.normal(size=n))
+    ci = np.array(sorted(r.permutation(n)[:a["k"]].tolist()), dtype=np.int64)
+    cuts = sorted(set(r.randint(1, n, size=2).tolist()))
+    edges = [0] + cuts + [n]
+    lengths = [edges[i + 1] - edges[i] for i in range(len(edges) - 1)]
+    res = cutil.ClusterResult(center_indices=ci, assignments=lab, distances=dist, centers=[0] * a["k"])
+    larr = np.array(lengths)
+    return (lambda: res.partition(larr)[:3]), [lab, dist, ci, larr]
+
+
+def b_ra_where(a):
+    r = rs(a["seed"])
+    A = ra.RaggedArray([r.randint(0, 3, size=L) for L in a["lens"]])
+    mask = A > 0
+    return (lambda: ra.where(mask)), [A._data, mask._data]
+
+
 ROUTINES = {
     "shannon_entropy": (prob_args(), b_shannon),
     "kl_divergence": (kl_args(), b_kl),
@@ -537,6 +626,16 @@ ROUTINES = {
     "libdist.manhattan": (points_args(), b_dist("manhattan")),
     "libdist.hamming": (points_args(), b_dist("hamming")),
     "ragged_operator": (ragged_args(), b_ragged),
+    "mi_to_nmi": (feat_args(), b_nmi),
+    "mi_to_nmi_apc": (feat_args(), b_nmi_apc_full),
+    "deconvolute_network": (feat_args(), b_deconv),
+    "relative_entropy": (counts_args(), b_rel_entropy),
+    "Q_from_assignments": (assigns_args(), b_q_from_assigns),
+    "energy_to_probability": (points_args(), b_energy),
+    "MSM.fit": (assigns_args(), b_msm_fit),
+    "implied_timescales": (assigns_args(), b_imp_times),
+    "ClusterResult.partition": (points_args(), b_partition),
+    "ra.where": (ragged_args(), b_ra_where),
     "ragged_fancy_read": (ragged_idx_args(), b_ragged_fancy_read),
     "ragged_fancy_write": (ragged_idx_args(), b_ragged_fancy_write),
     "joint_counts_long": (feat_args(max_t=30000, min_t=5000, max_f=2), b_joint_counts),
